@@ -18,6 +18,20 @@ pub struct FixedTransaction {
 
 to_from_bytes!(FixedTransaction);
 
+// A raw part is written back verbatim inside the transaction array, so it must be exactly one
+// CBOR item: anything after it would make the whole transaction malformed.
+fn deserialize_raw_part<T: Deserialize>(bytes: &[u8], part_name: &str) -> Result<T, JsError> {
+    let mut raw = Deserializer::from(std::io::Cursor::new(bytes));
+    let value = T::deserialize(&mut raw)?;
+    if raw.as_mut_ref().position() != bytes.len() as u64 {
+        return Err(JsError::from_str(&format!(
+            "Trailing data after the {} bytes",
+            part_name
+        )));
+    }
+    Ok(value)
+}
+
 #[wasm_bindgen]
 impl FixedTransaction {
     pub fn new(
@@ -25,8 +39,9 @@ impl FixedTransaction {
         raw_witness_set: &[u8],
         is_valid: bool,
     ) -> Result<FixedTransaction, JsError> {
-        let body = TransactionBody::from_bytes(raw_body.to_vec())?;
-        let mut witness_set = FixedTxWitnessesSet::from_bytes(raw_witness_set.to_vec())?;
+        let body: TransactionBody = deserialize_raw_part(raw_body, "body")?;
+        let mut witness_set: FixedTxWitnessesSet =
+            deserialize_raw_part(raw_witness_set, "witness set")?;
         let tx_hash = TransactionHash::from(blake2b256(raw_body));
 
         let tag_state =
@@ -54,10 +69,12 @@ impl FixedTransaction {
         raw_auxiliary_data: &[u8],
         is_valid: bool,
     ) -> Result<FixedTransaction, JsError> {
-        let body = TransactionBody::from_bytes(raw_body.to_vec())?;
-        let mut witness_set = FixedTxWitnessesSet::from_bytes(raw_witness_set.to_vec())?;
+        let body: TransactionBody = deserialize_raw_part(raw_body, "body")?;
+        let mut witness_set: FixedTxWitnessesSet =
+            deserialize_raw_part(raw_witness_set, "witness set")?;
         let tx_hash = TransactionHash::from(blake2b256(raw_body));
-        let auxiliary_data = Some(AuxiliaryData::from_bytes(raw_auxiliary_data.to_vec())?);
+        let auxiliary_data: Option<AuxiliaryData> =
+            Some(deserialize_raw_part(raw_auxiliary_data, "auxiliary data")?);
 
         let tag_state =
             has_transaction_set_tag_internal(&body, Some(witness_set.tx_witnesses_set_ref()))?;
@@ -79,7 +96,7 @@ impl FixedTransaction {
     }
 
     pub fn new_from_body_bytes(raw_body: &[u8]) -> Result<FixedTransaction, JsError> {
-        let body = TransactionBody::from_bytes(raw_body.to_vec())?;
+        let body: TransactionBody = deserialize_raw_part(raw_body, "body")?;
         let tx_hash = TransactionHash::from(blake2b256(raw_body));
 
         let tag_state = has_transaction_set_tag_internal(&body, None)?;
@@ -143,7 +160,7 @@ impl FixedTransaction {
     }
 
     pub fn set_body(&mut self, raw_body: &[u8]) -> Result<(), JsError> {
-        let body = TransactionBody::from_bytes(raw_body.to_vec())?;
+        let body: TransactionBody = deserialize_raw_part(raw_body, "body")?;
         self.body = body;
         self.body_bytes = raw_body.to_vec();
         Ok(())
@@ -157,7 +174,8 @@ impl FixedTransaction {
         note = "Use `.sign_and_add_vkey_signature` or `.sign_and_add_icarus_bootstrap_signature` or `.sign_and_add_daedalus_bootstrap_signature` instead."
     )]
     pub fn set_witness_set(&mut self, raw_witness_set: &[u8]) -> Result<(), JsError> {
-        let witness_set = FixedTxWitnessesSet::from_bytes(raw_witness_set.to_vec())?;
+        let witness_set: FixedTxWitnessesSet =
+            deserialize_raw_part(raw_witness_set, "witness set")?;
         self.witness_set = witness_set;
         Ok(())
     }
@@ -179,7 +197,8 @@ impl FixedTransaction {
     }
 
     pub fn set_auxiliary_data(&mut self, raw_auxiliary_data: &[u8]) -> Result<(), JsError> {
-        let auxiliary_data = AuxiliaryData::from_bytes(raw_auxiliary_data.to_vec())?;
+        let auxiliary_data: AuxiliaryData =
+            deserialize_raw_part(raw_auxiliary_data, "auxiliary data")?;
         self.auxiliary_data = Some(auxiliary_data);
         self.auxiliary_bytes = Some(raw_auxiliary_data.to_vec());
         Ok(())
